@@ -452,6 +452,14 @@ class SArr:
     __array_priority__ = 2000
     __hash__ = None
 
+    def __setattr__(self, k, v):
+        if k == "shape":
+            v = tuple(v)         # `a.shape = [n]` (in-place reshape to the same dims)
+            old = self.__dict__.get("shape")
+            if old is not None and len(old) != len(v):
+                raise OutsideSubset("in-place reshape to another rank")
+        object.__setattr__(self, k, v)
+
     def __init__(self, shape, fn, dtype="real", name=None):
         self.shape = tuple(shape)
         self.fn = fn
@@ -578,6 +586,13 @@ class SArr:
     def copy(self):
         f = self.fn
         return SArr(self.shape, f, self.dtype)
+
+    def swapaxes(self, a, b):
+        if a == b or self.ndim == 1:
+            return self          # a view of the same data
+        if self.ndim == 2 and {a % 2, b % 2} == {0, 1}:
+            return self.T
+        raise OutsideSubset("swapaxes on rank > 2")
 
     def reshape(self, *shape):
         from . import models
